@@ -51,7 +51,22 @@ func isTranslatorCall(cc *ssa.CallCommon, trs []*ssa.Function) bool {
 
 // ctxRawSpec: values that may be a raw context.Canceled/DeadlineExceeded (or
 // an I/O error provoked by the context ending).
-func ctxRawSpec(trs []*ssa.Function) core.TaintSpec {
+func ctxRawSpec(p *core.Prog, trs []*ssa.Function) core.TaintSpec {
+	callCtx := map[ssa.Value]bool{}
+	isCallCtx := func(v ssa.Value) bool {
+		if b, ok := callCtx[v]; ok {
+			return b
+		}
+		tr := ctxTrace(p, v)
+		ok := len(tr.Roots) > 0
+		for r := range tr.Roots {
+			if !strings.HasPrefix(r, "param:") {
+				ok = false
+			}
+		}
+		callCtx[v] = ok
+		return ok
+	}
 	return core.TaintSpec{
 		Name: "CtxRaw",
 		IsSource: func(v ssa.Value) bool {
@@ -84,7 +99,11 @@ func ctxRawSpec(trs []*ssa.Function) core.TaintSpec {
 				return false
 			}
 			call, _, ok := core.CallResult(f.X)
-			return ok && call.Call.IsInvoke() && call.Call.Method.Name() == "Err" && core.TypeStr(call.Call.Value.Type()) == "context.Context"
+			if !ok || !call.Call.IsInvoke() || call.Call.Method.Name() != "Err" || core.TypeStr(call.Call.Value.Type()) != "context.Context" {
+				return false
+			}
+			// only the call's own context (descending from the caller's) proves anything
+			return isCallCtx(call.Call.Value)
 		},
 		Passthrough: func(cc *ssa.CallCommon) []int { return nil },
 	}
@@ -160,7 +179,7 @@ func c04(c *core.Ctx) {
 		}
 		for _, pkgS := range []string{"inprocgrpc", "httpgrpc"} {
 			fns := append(p.LibFuncs(pkgS), p.LibFuncs("internal")...)
-			t := core.NewTaint(ctxRawSpec(trs), fns)
+			t := core.NewTaint(ctxRawSpec(p, trs), fns)
 			var sinks []*ssa.Function
 			for _, ct := range channelTypes(p, pkgS) {
 				if f := declaredMethod(p, ct, "Invoke"); f != nil {
@@ -300,6 +319,66 @@ func c04(c *core.Ctx) {
 		}
 		if n < 2 {
 			c.Fail("httpgrpc:roundtrip-sites", token.NoPos, "ANCHOR-MISSING: expected RoundTrip on the unary and the streaming path, found %d", n)
+		}
+		c.EndRule()
+	}
+
+	// ---------------------------------------------------------------- R5
+	if c.Rule("R5", "no success after a known context error: in the client-side call/receive functions no nil (success) return is reachable from an edge on which ctx.Err() != nil was established", 3) {
+		n := 0
+		var clientFns []*ssa.Function
+		for _, pkgS := range []string{"inprocgrpc", "httpgrpc"} {
+			for _, ct := range channelTypes(p, pkgS) {
+				if f := declaredMethod(p, ct, "Invoke"); f != nil {
+					clientFns = append(clientFns, f)
+				}
+			}
+			for _, nt := range streamTypes(p, "ClientStream", "RecvMsg") {
+				if pkgSuffixOf(nt) == pkgS {
+					clientFns = append(clientFns, methodFamily(p, nt, "RecvMsg")...)
+				}
+			}
+			if pkgS == "inprocgrpc" {
+				for _, fn := range p.LibFuncs(pkgS) {
+					if fn.Parent() == nil && fn.Signature.Recv() == nil && receivesFromParam(fn) {
+						clientFns = append(clientFns, fn)
+					}
+				}
+			}
+		}
+		for _, fn := range clientFns {
+			for _, ef := range core.EdgeFactsOf(fn) {
+				f := ef.Fact
+				if f.Op != token.NEQ || !core.IsNilConst(f.Y) {
+					continue
+				}
+				isCtxErr := core.OriginIs(f.X, func(o ssa.Value) bool {
+					call, _, ok := core.CallResult(o)
+					return ok && call.Call.IsInvoke() && call.Call.Method.Name() == "Err" && core.TypeStr(call.Call.Value.Type()) == "context.Context"
+				})
+				if !isCtxErr {
+					continue
+				}
+				n++
+				key := fmt.Sprintf("%s:after-ctx-err#%d", core.FuncName(fn), n)
+				v := core.Walk(core.Loc{B: ef.B.Succs[ef.Succ], Idx: 0}, nil, nil)
+				bad := false
+				for _, r := range core.Returns(fn) {
+					if !v[r] {
+						continue
+					}
+					ev := r.Results[len(r.Results)-1]
+					if !core.IsErrorType(ev.Type()) {
+						continue
+					}
+					for _, l := range core.ErrLeaves(ev, r) {
+						if l.Class == core.ErrNil && (l.At == ssa.Instruction(r) || v[l.At]) {
+							bad = true
+						}
+					}
+				}
+				c.Check(!bad, key, ef.If.Pos(), "every return after 'ctx.Err() != nil' carries a non-nil error", "a nil (success) return is reachable after ctx.Err() != nil was established: the caller would get success with missing data instead of the cancellation status")
+			}
 		}
 		c.EndRule()
 	}
